@@ -306,6 +306,8 @@ def main(argv):
 
     if a.replay:
         return do_replay(a.replay)
+    if (a.only or os.environ.get("VERIF_REPO")) and not os.environ.get("VERIF_EVIDENCE_DIR"):
+        os.environ["VERIF_EVIDENCE_DIR"] = "/tmp/fpv-dev-evidence"
 
     reg = load_registry()
     sel = [h for h in reg if prop in h["props"] and (a.tier == "thorough" or h["tier"] == "quick")]
@@ -502,6 +504,13 @@ def write_evidence(prop, tier, seed, sel, results, vres, prep_log, kani_runs, vi
             continue
         total = pr["total"]
         ok = total - pr["failed"] - pr["undetermined"]
+        # failed checks attributed to another property (by tag) are not obligations of this one
+        other = 0
+        for c in pr["failed_checks"]:
+            tags = set(TAG_RE.findall(c["desc"]))
+            if (tags and prop not in tags) or (not tags and prop != "C04"):
+                other += 1
+        total -= other
         row = {"id": h["id"], "kind": h["kind"], "status": pr["status"], "checks": total, "discharged": ok,
                "unreachable": pr["unreachable"], "cbmc_s": pr["time"], "functions": h["fns"],
                "covers": f"{pr['covers_sat']}/{pr['covers_total']}"}
@@ -561,8 +570,10 @@ def write_evidence(prop, tier, seed, sel, results, vres, prep_log, kani_runs, vi
         "wall_s": round(wall, 1),
         "violations": len({v['harness']['id'] for v in violations}),
     }
-    os.makedirs(VERIF + "/evidence", exist_ok=True)
-    json.dump(ev, open(VERIF + f"/evidence/{prop}.json", "w"), indent=1)
+    # dev / seeded runs (--only, VERIF_REPO, VERIF_EVIDENCE_DIR) never overwrite the committed evidence
+    evdir = os.environ.get("VERIF_EVIDENCE_DIR") or (VERIF + "/evidence")
+    os.makedirs(evdir, exist_ok=True)
+    json.dump(ev, open(evdir + f"/{prop}.json", "w"), indent=1)
 
 
 def assumption_scan(sel, vres):
